@@ -125,7 +125,10 @@ def rand_subtable(r, ltype, n, nlookups, self_idx, classdefs):
     raise ValueError(ltype)
 
 
-def rand_recipe(r, types=(1, 2, 3, 4, 5, 6, 8), max_lookups=5, with_gdef=None, flags=True):
+def rand_recipe(r, types=(1, 2, 3, 4, 5, 6, 8), max_lookups=5, with_gdef=None, flags=True, expansion=None):
+    """`expansion=(num, den)`: that share of the recipes comes from the expansion profile (`expansion_recipe`)."""
+    if expansion is not None and r.chance(*expansion):
+        return expansion_recipe(r)
     n = r.range(8, 20)
     rec = {"num_glyphs": n, "cmap": "pua", "advances": [500 + 10 * g for g in range(n)]}
     with_gdef = r.chance(2, 3) if with_gdef is None else with_gdef
@@ -178,6 +181,194 @@ def rand_recipe(r, types=(1, 2, 3, 4, 5, 6, 8), max_lookups=5, with_gdef=None, f
         feats.append({"tag": t, "lookups": sorted(set(r.sample(pool, r.range(1, nl))))})
     rec["gsub"] = {"features": feats, "lookups": lookups}
     return rec
+
+
+# ------------------------------------------------------------------------------------------------
+# "expansion" profile: contextual and chained rules (all three formats) whose sequence-lookup records CHANGE THE LENGTH of
+# the matched sequence while later records of the same rule still address it.  OpenType: the sequenceIndex of a record
+# refers to the glyph sequence as the earlier records left it, so after a 1 -> k multiple substitution the k-1 added glyphs
+# are positions of their own and the original glyphs behind them have moved up by k-1.  The generator keeps a symbolic copy
+# of the matched sequence while it writes the records of a rule, so that later records can be aimed at every place of the
+# grown sequence: the first / middle / LAST added glyph, the shifted originals, one past the end.  Every nested lookup that
+# follows a growth covers all glyphs of the sequence as it then stands and gives each a target of its own (fresh glyph ids),
+# so the output tells which position a record really hit.  Record orders: grow-mark, grow-mark-mark, grow-grow-mark (the
+# second growth may start from an added glyph), mark-grow-mark, and — outside the specification's domain, for the
+# interpreter model only — delete / ligate before or after a growth.
+
+EXP_MAIN_TAGS = ["ccmp", "liga", "calt", "rlig", "locl"]           # on by default in the default shaper
+EXP_ORDERS = ["GS", "GS", "GSS", "GGS", "GSGS", "SGS", "GSSS"]
+EXP_ORDERS_SHRINK = ["DGS", "GDS", "LGS", "GLS", "GSDS", "GSLS"]
+
+
+def expansion_recipe(r, shrink=None):
+    nb = r.range(4, 6)
+    base = list(range(1, nb + 1))
+    nxt = [nb + 1]
+
+    def fresh():
+        nxt[0] += 1
+        return nxt[0] - 1
+
+    shrink = r.chance(1, 3) if shrink is None else shrink
+    nmain = r.range(1, 2)
+    helpers = []                         # nested lookups; index in the lookup list = nmain + position here
+    seqs = []
+
+    def add_helper(lk):
+        helpers.append(lk)
+        return nmain + len(helpers) - 1
+
+    def grow(cur, i):
+        """a multiple substitution 1 -> 3..5 (sometimes 2) for cur[i] and a few other glyphs; returns (lookup index, sequence)"""
+        srcs = sorted(set([cur[i]] + r.sample(base, r.range(0, 2)) + r.sample(cur, r.range(0, min(2, len(cur))))))
+        seqmap = {g: [fresh() for _ in range(r.choice([3, 3, 3, 4, 4, 5, 2]))] for g in srcs}
+        li = add_helper({"type": 2, "flag": 0, "subtables": [{"coverage": srcs, "sequences": [seqmap[g] for g in srcs]}]})
+        return li, seqmap[cur[i]]
+
+    def marker(cur):
+        """a single / alternate / 1->1 or 1->2 multiple substitution covering EVERY glyph of the current sequence (and the
+        other base glyphs), each with targets of its own; returns (lookup index, {glyph: [targets]})"""
+        srcs = sorted(set(cur) | set(r.sample(base, r.range(0, len(base)))))
+        kind = r.choice(["single2", "single2", "single1", "alt", "multi"])
+        if kind == "single1":
+            delta = nxt[0] - srcs[0]
+            tm = {g: [g + delta] for g in srcs}
+            nxt[0] = srcs[-1] + delta + 1
+            st, t = {"format": 1, "coverage": srcs, "delta": delta}, 1
+        elif kind == "single2":
+            tm = {g: [fresh()] for g in srcs}
+            st, t = {"format": 2, "coverage": srcs, "subst": [tm[g][0] for g in srcs]}, 1
+        elif kind == "alt":
+            alts = {g: [fresh() for _ in range(r.range(1, 3))] for g in srcs}
+            tm = {g: [alts[g][0]] for g in srcs}                  # feature value 1 selects the first alternate
+            st, t = {"coverage": srcs, "alternates": [alts[g] for g in srcs]}, 3
+        else:
+            tm = {g: [fresh() for _ in range(r.choice([1, 1, 2]))] for g in srcs}
+            st, t = {"coverage": srcs, "sequences": [tm[g] for g in srcs]}, 2
+        return add_helper({"type": t, "flag": 0, "subtables": [st]}), tm
+
+    def records(inp):
+        cur = list(inp)
+        recs = []
+        added = []                        # positions of the glyphs the last growth added
+        order = r.choice(EXP_ORDERS_SHRINK if shrink and r.chance(2, 3) else EXP_ORDERS)
+        for step in order:
+            if step == "G":
+                cands = list(range(len(cur)))
+                i = r.choice(added) if added and r.chance(1, 3) else r.choice(cands)
+                li, seq = grow(cur, i)
+                recs.append((i, li))
+                cur[i:i + 1] = seq
+                added = list(range(i + 1, i + len(seq)))
+            elif step == "S":
+                li, tm = marker(cur)
+                k = r.below(10)
+                if added and k < 5:
+                    # one of the added glyphs, the later ones (second, ..., LAST) preferred
+                    i = added[-1] if k < 2 else r.choice(added[1:] or added)
+                elif added and k < 7 and added[-1] + 1 < len(cur):
+                    i = r.range(added[-1] + 1, len(cur) - 1)      # an original glyph behind the growth (moved up)
+                elif k == 9:
+                    i = len(cur) + r.below(2)                      # one / two past the end: ignored
+                else:
+                    i = r.below(len(cur))
+                recs.append((i, li))
+                if i < len(cur):
+                    t = tm[cur[i]]
+                    cur[i:i + 1] = t
+                    if len(t) > 1:
+                        added = list(range(i + 1, i + len(t)))
+            elif step == "D" and len(cur) >= 2:
+                i = r.below(len(cur))
+                recs.append((i, add_helper({"type": 2, "flag": 0, "subtables": [{"coverage": [cur[i]], "sequences": [[]]}]})))
+                del cur[i]
+                added = [p - 1 if p > i else p for p in added if p != i]
+            elif step == "L" and len(cur) >= 2:
+                i = r.below(len(cur) - 1)
+                lig = fresh()
+                recs.append((i, add_helper({"type": 4, "flag": 0, "subtables": [
+                    {"coverage": [cur[i]], "ligsets": [[{"components": [cur[i + 1]], "glyph": lig}]]}]})))
+                cur[i:i + 2] = [lig]
+                added = [p - 1 if p > i + 1 else p for p in added if p != i + 1]
+            if helpers and r.chance(1, 12):
+                recs.append((r.below(len(cur) + 1), nmain + r.below(len(helpers))))     # any helper, anywhere
+        return recs
+
+    def cov_with(g):
+        return sorted(set([g] + r.sample(base, r.range(0, 2))))
+
+    def subtable(chain):
+        inp = [r.choice(base) for _ in range(r.choice([1, 2, 2, 3, 3]))]
+        bt = [r.choice(base) for _ in range(r.choice([0, 0, 1, 2]))] if chain else []
+        la = [r.choice(base) for _ in range(r.choice([0, 0, 1, 2]))] if chain else []
+        seqs.append(list(reversed(bt)) + inp + la)
+        recs = records(inp)
+        f = r.range(1, 3)
+        if f == 1:
+            ru = {"input": inp[1:], "lookups": recs}
+            if chain:
+                ru["backtrack"], ru["lookahead"] = bt, la
+            return {"format": 1, "coverage": [inp[0]], "rulesets": [[ru]]}
+        if f == 2:
+            cds = [{g: r.range(1, 3) for g in base if r.chance(3, 4)} for _ in range(3)]
+            icd = cds[0]
+            ncls = max(icd.values(), default=0) + 1
+            ru = {"input": [icd.get(g, 0) for g in inp[1:]], "lookups": recs}
+            sets = [None] * ncls
+            sets[icd.get(inp[0], 0)] = [ru]
+            if not chain:
+                return {"format": 2, "coverage": cov_with(inp[0]), "classdef": icd, "classsets": sets}
+            bcd, lcd = r.choice(cds), r.choice(cds)
+            ru["backtrack"] = [bcd.get(g, 0) for g in bt]
+            ru["lookahead"] = [lcd.get(g, 0) for g in la]
+            return {"format": 2, "coverage": cov_with(inp[0]), "backtrack_classdef": bcd, "input_classdef": icd,
+                    "lookahead_classdef": lcd, "classsets": sets}
+        st = {"format": 3, "coverages": [cov_with(g) for g in inp], "lookups": recs}
+        if chain:
+            st["backtrack"] = [cov_with(g) for g in bt]
+            st["lookahead"] = [cov_with(g) for g in la]
+        return st
+
+    mains = []
+    for _ in range(nmain):
+        chain = r.chance(1, 2)
+        mains.append({"type": 6 if chain else 5, "flag": 0, "subtables": [subtable(chain) for _ in range(r.range(1, 2))]})
+    n = nxt[0] + 1
+    rec = {"num_glyphs": n, "cmap": "pua", "advances": [500 + (g % 50) for g in range(n)], "seqs": seqs, "text_glyphs": base,
+           "profile": "expansion"}
+    if r.chance(1, 3):
+        # GDEF: a base glyph or two and some of the produced glyphs are marks; the contextual lookups may ignore marks (the
+        # added glyphs are positions of the sequence whether or not the lookup would have skipped them)
+        marks = set(r.sample(base, r.range(0, 2))) | {g for g in range(nb + 1, n) if r.chance(1, 5)}
+        rec["gdef"] = {"classes": {g: (3 if g in marks else r.choice([1, 1, 2])) for g in range(1, n) if g in marks or r.chance(5, 6)}}
+        for lk in mains:
+            if r.chance(1, 2):
+                lk["flag"] = 8
+    tags = r.sample(EXP_MAIN_TAGS, nmain) if r.chance(2, 3) else [r.choice(EXP_MAIN_TAGS)]
+    feats = [{"tag": t, "lookups": [i for i in range(nmain) if len(tags) == 1 or i == k]} for k, t in enumerate(tags)]
+    extra = [i for i in range(nmain, nmain + len(helpers)) if r.chance(1, 8)]
+    if extra:
+        feats.append({"tag": r.choice(["ss01", "dlig", "salt"]), "lookups": extra})     # some helpers also run on their own
+    rec["gsub"] = {"features": feats, "lookups": mains + helpers}
+    return rec
+
+
+def rand_glyphs(r, rec, k):
+    """k glyph ids for a text over the font: uniform, or — when the recipe names the sequences its rules wait for — those
+    sequences strung together with the recipe's text glyphs in between"""
+    n = rec["num_glyphs"]
+    if not rec.get("seqs"):
+        return [r.range(1, n - 1) for _ in range(k)]
+    alpha = rec.get("text_glyphs") or list(range(1, n))
+    gl = []
+    while len(gl) < k:
+        if r.chance(3, 4):
+            gl += r.choice(rec["seqs"])
+        if r.chance(1, 2):
+            gl.append(r.choice(alpha))
+        if r.chance(1, 12):
+            gl.append(r.range(1, n - 1))
+    return gl[:max(k, 1)]
 
 
 # ------------------------------------------------------------------------------------------------
@@ -371,8 +562,9 @@ def rand_buffer(r, rec, length=None):
     # bias towards glyphs that occur in coverages
     items = []
     cl = 0
+    hinted = rand_glyphs(r, rec, k) if rec.get("seqs") else None
     for i in range(k):
-        g = r.range(1, n - 1)
+        g = hinted[i] if hinted is not None else r.range(1, n - 1)
         mask = 0xFFFFFFF8 if r.chance(3, 4) else (r.next() & 0xFFFFFFF8)
         uprops = 0
         if r.chance(1, 10):
